@@ -23,6 +23,7 @@ import (
 	"strconv"
 	"strings"
 	"sync"
+	"sync/atomic"
 	"testing"
 	"testing/synctest"
 	"time"
@@ -847,11 +848,30 @@ func leakedGoroutines() []string {
 	return out
 }
 
+// execStart is the real-time start (unix ns) of the scenario being executed, 0 when idle.
+var execStart atomic.Int64
+
+// watchdog ends the test binary when one scenario takes more than two minutes of REAL time: a goroutine that
+// spins or blocks outside the bubble's control would otherwise stall virtual time for ever.
+func watchdog() {
+	for {
+		time.Sleep(5 * time.Second)
+		if st := execStart.Load(); st != 0 && time.Now().UnixNano()-st > int64(2*time.Minute) {
+			buf := make([]byte, 1<<20)
+			n := runtime.Stack(buf, true)
+			fmt.Fprintf(os.Stderr, "closee watchdog: scenario stuck for more than 2 minutes of real time\n%s\n", buf[:n])
+			os.Exit(3)
+		}
+	}
+}
+
 func (rn *runner) Exec(op string) string {
 	p, ok := parseOp(op)
 	if !ok {
 		return "skip"
 	}
+	execStart.Store(time.Now().UnixNano())
+	defer execStart.Store(0)
 	res := &result{}
 	leak := 0
 	var leaked []string
@@ -892,5 +912,6 @@ func (rn *runner) Exec(op string) string {
 
 func TestDriver(t *testing.T) {
 	theT = t
+	go watchdog()
 	vh.Main(t, "closee", newRunner)
 }
